@@ -184,7 +184,7 @@ func judge(stream string, delim byte, failAt int, r result) string {
 	}
 	for i := range want {
 		got := r.calls[i]
-		if strings.HasSuffix(got, string(delim)) {
+		if strings.HasSuffix(got, string([]byte{delim})) {
 			got = got[:len(got)-1]
 		}
 		if got != want[i] {
@@ -443,6 +443,16 @@ func runC12(run *mc.Run) int {
 		}
 		gen(nil)
 	}
+	// (2d) delimiters that are not ASCII: a delimiter is a byte, whatever its value (0x80, 0xc3, 0xff), and records
+	// may contain the UTF-8 encoding of the code point with that number (U+0080 = c2 80, U+00FF = c3 bf)
+	for _, d := range []byte{0x80, 0xc3, 0xff, 0x7f} {
+		ds := string([]byte{d})
+		enc := string(rune(d)) // the two-byte UTF-8 form for d >= 0x80
+		stream := "a" + ds + "b" + enc + "c" + ds + ds + enc + ds + "tail" + enc
+		for _, cs := range []int{1, 2, 3, len(stream)} {
+			emit(job{stream: stream, chunks: chunkBy(stream, cs), delim: d, class: "non-ascii-delimiter"})
+		}
+	}
 	// (2c) records that begin with bytes a text layer may think are not content: byte-order marks, ESC, a syslog
 	// priority, a gzip header, the CEE cookie, comment and escape characters - alone, doubled, leading and trailing
 	for _, m := range []string{"\xef\xbb\xbf", "\xff\xfe", "\xfe\xff", "\x1f\x8b", "\x1b[0m", "<13>", "@cee:", "#", "\\", "\x7f", "\xc2\x85", "\xe2\x80\xa8"} {
@@ -473,7 +483,7 @@ func runC12(run *mc.Run) int {
 	close(jobs)
 	wg.Wait()
 	cov := mc.Coverage{Level: "exploration", Evaluations: int(evals), Distinct: int(multi), Exhaustive: complete && skipped == 0, Samples: samples,
-		Rule:  fmt.Sprintf("the real NamedPipeIngester.Ingest on real FIFOs: every byte stream over {a,b,delimiter} of length <=%d x every one of the 2^(len-1) partitions into write(2) calls (FIONREAD handshake: each write is drained before the next), delimiters \\n and NUL; every stream of <=4 symbols over {NUL, 0xff, CR, blank, newline} x every partition; records of 4095..70000 bytes x chunk sizes {1,2,4095,4096,4097,whole}; records of 2^20-1, 2^20, 2^20+1 and 1.25 x 2^20 bytes; a callback error at each record index (the callback's own error, io.EOF, context.Canceled, os.ErrClosed, io.ErrUnexpectedEOF; also with the context cancelled by the time the callback returns); a second stream served by the same ingester value after one that ended with an unterminated tail of 1..70000 bytes; bursts of 300 / 1 200 / 5 000 records while the first callback takes 1.5 s; writers that pause 0.3 s (thorough: 1.5 s, 5 s) between their writes, mid-record; unterminated tails and the empty stream. Oracle (partition-independent): callback arguments = the delimiter-terminated records in order (one trailing delimiter allowed), nothing after the last delimiter, callback error returned unchanged, end-of-stream returned as an error. distinct_nontrivial = runs whose stream was split over >=2 writes", n),
+		Rule:  fmt.Sprintf("the real NamedPipeIngester.Ingest on real FIFOs: every byte stream over {a,b,delimiter} of length <=%d x every one of the 2^(len-1) partitions into write(2) calls (FIONREAD handshake: each write is drained before the next), delimiters \\n and NUL (and, on a fixed stream, 0x7f, 0x80, 0xc3, 0xff); every stream of <=4 symbols over {NUL, 0xff, CR, blank, newline} x every partition; records of 4095..70000 bytes x chunk sizes {1,2,4095,4096,4097,whole}; records of 2^20-1, 2^20, 2^20+1 and 1.25 x 2^20 bytes; a callback error at each record index (the callback's own error, io.EOF, context.Canceled, os.ErrClosed, io.ErrUnexpectedEOF; also with the context cancelled by the time the callback returns); a second stream served by the same ingester value after one that ended with an unterminated tail of 1..70000 bytes; bursts of 300 / 1 200 / 5 000 records while the first callback takes 1.5 s; writers that pause 0.3 s (thorough: 1.5 s, 5 s) between their writes, mid-record; unterminated tails and the empty stream. Oracle (partition-independent): callback arguments = the delimiter-terminated records in order (one trailing delimiter allowed), nothing after the last delimiter, callback error returned unchanged, end-of-stream returned as an error. distinct_nontrivial = runs whose stream was split over >=2 writes", n),
 		Extra: map[string]any{"runs_per_class": classes, "max_stream_len": n}}
 	cov.Assumptions = []string{"kernel FIFO semantics; a write larger than the pipe buffer may be split by the kernel (affects only which partition was exercised, not the verdict)"}
 	return run.Finish(cov)
